@@ -535,6 +535,171 @@ def build(reg, cfg):
     lemmas(reg)
 
 
+# ---- bounded native check (tissue level; a stand-in for the composition of the chain, never counted as proved) -------------------------------------------
+TISSUE_DRIVER = r'''
+#include <cstdio>
+#include <cstdlib>
+#include <cmath>
+#include <array>
+#include <map>
+#include <vector>
+#include "lumen_cell.hpp"
+#include "contact_model_abstract.hpp"
+#if CONTACT_MODEL_INDEX == 0
+  #include "contact_node_face_via_spring.hpp"
+  typedef contact_node_face_via_spring model_t;
+#elif CONTACT_MODEL_INDEX == 1
+  #include "contact_node_node_via_coupling.hpp"
+  typedef contact_node_node_via_coupling model_t;
+#else
+  #include "contact_face_face_via_coupling.hpp"
+  typedef contact_face_face_via_coupling model_t;
+#endif
+// A small tissue of overlapping non-epithelial cells (no couplings: the contact forces are a plain sum over node/face pairs) placed at argv[1..3]:
+// the forces computed by the real run() of the compiled contact model (grid, boxes, candidate loops) are compared with the forces obtained by
+// applying the model's own per-pair rule to every node of every cell against every live face of every other cell (with the model's own
+// node / normal admissibility rules and no spatial structure). Also: the contact forces of the tissue add up to zero.
+static void icosphere(int sub, std::vector<double>& pos, std::vector<unsigned>& faces){
+  const double t = (1. + std::sqrt(5.)) / 2.;
+  std::vector<std::array<double,3>> v{{-1,t,0},{1,t,0},{-1,-t,0},{1,-t,0},{0,-1,t},{0,1,t},{0,-1,-t},{0,1,-t},{t,0,-1},{t,0,1},{-t,0,-1},{-t,0,1}};
+  std::vector<std::array<unsigned,3>> f{{0,11,5},{0,5,1},{0,1,7},{0,7,10},{0,10,11},{1,5,9},{5,11,4},{11,10,2},{10,7,6},{7,1,8},{3,9,4},{3,4,2},{3,2,6},{3,6,8},{3,8,9},{4,9,5},{2,4,11},{6,2,10},{8,6,7},{9,8,1}};
+  auto nrm = [](std::array<double,3>& p){ double n = std::sqrt(p[0]*p[0]+p[1]*p[1]+p[2]*p[2]); p[0]/=n; p[1]/=n; p[2]/=n; };
+  for(auto& p: v) nrm(p);
+  for(int s = 0; s < sub; s++){
+    std::map<std::pair<unsigned,unsigned>, unsigned> cache;
+    auto mid = [&](unsigned a, unsigned b){ auto k = std::make_pair(std::min(a,b), std::max(a,b)); auto it = cache.find(k); if(it != cache.end()) return it->second;
+      std::array<double,3> m{(v[a][0]+v[b][0])/2, (v[a][1]+v[b][1])/2, (v[a][2]+v[b][2])/2}; nrm(m); v.push_back(m); return cache[k] = (unsigned)v.size()-1; };
+    std::vector<std::array<unsigned,3>> f2;
+    for(auto& tr: f){ unsigned a = mid(tr[0],tr[1]), b = mid(tr[1],tr[2]), c = mid(tr[2],tr[0]); f2.push_back({tr[0],a,c}); f2.push_back({tr[1],b,a}); f2.push_back({tr[2],c,b}); f2.push_back({a,b,c}); }
+    f = f2;
+  }
+  for(auto& p: v){ pos.push_back(p[0]); pos.push_back(p[1]); pos.push_back(p[2]); }
+  for(auto& tr: f){ faces.push_back(tr[0]); faces.push_back(tr[1]); faces.push_back(tr[2]); }
+}
+int main(int argc, char** argv){
+  const double ox = argc > 1 ? atof(argv[1]) : 0., oy = argc > 2 ? atof(argv[2]) : 0., oz = argc > 3 ? atof(argv[3]) : 0.;
+  face_type_parameters ft; ft.name_ = "f"; ft.face_type_global_id_ = 4; ft.adherence_strength_ = 0.7; ft.repulsion_strength_ = 3.0;
+  auto ct = std::make_shared<cell_type_parameters>(); ct->name_ = "lumen"; ct->global_type_id_ = 2; ct->mass_density_ = 1.0; ct->surface_coupling_max_curvature_ = 1e30; ct->add_face_type(ft);
+  std::vector<cell_ptr> cells;
+  const double centres[4][3] = {{0,0,0},{1.85,0.1,0.05},{0.9,1.6,-0.1},{0.8,0.5,1.65}};
+  for(unsigned k = 0; k < 4; k++){
+    std::vector<double> pos; std::vector<unsigned> faces; icosphere(1, pos, faces);
+    for(size_t j = 0; j < pos.size() / 3; j++){ pos[3*j] += centres[k][0] + ox; pos[3*j+1] += centres[k][1] + oy; pos[3*j+2] += centres[k][2] + oz; }
+    auto c = std::make_shared<lumen_cell>(pos, faces, 7 + 2 * k, ct);      // persistent ids differ from the list positions
+    c->initialize_cell_properties(true); c->set_local_id(k);
+    c->update_all_face_normals_and_areas();
+    #if CONTACT_MODEL_INDEX != 0
+      c->compute_node_curvature_and_normals();
+    #endif
+    cells.push_back(c);
+  }
+  global_simulation_parameters sp; sp.min_edge_len_ = 0.25; sp.contact_cutoff_adhesion_ = 0.12; sp.contact_cutoff_repulsion_ = 0.2;
+  model_t cm(sp);
+  auto zero = [&](){ for(auto& c: cells) for(node& n: c->node_lst_) n.force_ = vec3(0,0,0); };
+  zero();
+  cm.run(cells);
+  std::vector<std::vector<vec3>> got;
+  for(auto& c: cells){ got.emplace_back(); for(node& n: c->node_lst_) got.back().push_back(n.force_); }
+  // reference: the same rule on all pairs
+  zero();
+  size_t pairs = 0;
+  for(auto& c1: cells){
+    for(node& n: c1->node_lst_){
+      if(!n.is_used()) continue;
+      #if CONTACT_MODEL_INDEX != 0
+        if(!(n.curvature_ < c1->get_cell_type()->surface_coupling_max_curvature_)) continue;
+      #endif
+      for(auto& c2: cells){
+        if(c2.get() == c1.get()) continue;
+        for(face& f: c2->face_lst_){
+          if(!f.is_used()) continue;
+          #if CONTACT_MODEL_INDEX == 0
+            cm.apply_contact_forces(c1, n, &f);
+          #else
+            if(!(n.normal_.dot(f.normal_) < model_t::max_dot_product_repulsion_)) continue;
+            cm.resolve_contact(c1, c2, n, &f);
+          #endif
+          pairs++;
+        }
+      }
+    }
+  }
+  int bad = 0; double fmax = 0; vec3 net(0,0,0); size_t touched = 0;
+  for(size_t c = 0; c < cells.size(); c++) for(size_t k = 0; k < got[c].size(); k++){ fmax = std::max(fmax, cells[c]->node_lst_[k].force_.norm()); }
+  for(size_t c = 0; c < cells.size(); c++) for(size_t k = 0; k < got[c].size(); k++){
+    const vec3 ref = cells[c]->node_lst_[k].force_;
+    net = net + got[c][k];
+    if(ref.norm() > 0) touched++;
+    if((got[c][k] - ref).norm() > 1e-9 * std::max(fmax, 1e-300)){
+      if(bad < 8) printf("FAIL node %zu of the cell at position %zu: run() gives (%.9g %.9g %.9g), the rule applied to all node/face pairs gives (%.9g %.9g %.9g)\n", k, c, got[c][k].dx(), got[c][k].dy(), got[c][k].dz(), ref.dx(), ref.dy(), ref.dz());
+      bad++;
+    }
+  }
+  if(touched == 0 || fmax == 0){ printf("INCONCLUSIVE: no contact in the scenario\n"); return 3; }
+  if(net.norm() > 1e-9 * fmax){ printf("FAIL the contact forces of the tissue add up to (%.9g %.9g %.9g), not zero\n", net.dx(), net.dy(), net.dz()); bad++; }
+  if(bad){ printf("FAIL %d node(s) / sums differ (contact model %d, tissue at (%g %g %g), %zu nodes in contact)\n", bad, CONTACT_MODEL_INDEX, ox, oy, oz, touched); return 1; }
+  printf("OK contact model %d at (%g %g %g): %zu nodes in contact, %zu node/face pairs, forces of run() equal the all-pairs forces, net force zero\n", CONTACT_MODEL_INDEX, ox, oy, oz, touched, pairs);
+  return 0;
+}
+'''
+TISSUE_POSITIONS = [('0', '0', '0'), ('-317.3', '251.9', '173.1'), ('0.4', '-0.3', '0.2'), ('1e4', '2e4', '-1.5e4'), ('-0.95', '-0.8', '-0.825')]
+
+
+def tissue_runs(model, positions):
+    import native
+    out = []
+    for pos in positions:
+        code, txt = native.run_driver(TISSUE_DRIVER, list(pos), defines={'SIMUCELL3D_VERIF_CONTACT_MODEL_INDEX': model}, timeout=600)
+        out.append((pos, code, txt))
+        if code == 1: break
+    return out
+
+
+def extra_checks(run, prop='C06'):
+    import json, os
+    out = []
+    positions = TISSUE_POSITIONS if run.tier == 'thorough' else TISSUE_POSITIONS[:2]
+    for model in (1, 0, 2):
+        res = tissue_runs(model, positions)
+        bad = [r for r in res if r[1] == 1]
+        broken = [r for r in res if r[1] not in (0, 1)]
+        name = '%s/bounded/tissue-forces-equal-the-all-pairs-forces[contact model %d]' % (prop, model)
+        rec = {'name': name, 'bound': 'four overlapping icospheres (162 faces each, non-epithelial: no couplings) placed at %s; real run() of the compiled contact model against its own '
+                                      'per-pair rule applied to every node / live face pair of different cells; net contact force; IEEE doubles, relative tolerance 1e-9' % (', '.join('(%s)' % ' '.join(p) for p in positions)),
+               'result': 'equal' if not bad and not broken else ('forces differ' if bad else 'driver failed (%d)' % broken[0][1]), 'output': (bad or broken or res)[-1][2][-600:]}
+        if bad:
+            rp = os.path.join(os.path.dirname(os.path.dirname(os.path.abspath(__file__))), 'replays', '%s-bounded-tissue-%d.json' % (prop, model))
+            os.makedirs(os.path.dirname(rp), exist_ok=True)
+            json.dump({'property': prop, 'obligation': name, 'native': {'args': list(bad[0][0]), 'defines': {'CONTACT_MODEL_INDEX': model}, 'output': bad[0][2], 'driver': 'specs/C06.py:TISSUE_DRIVER'}, 'confirmed': True}, open(rp, 'w'), indent=1)
+            rec.update({'violation': True, 'replay': rp, 'confirmed': True})
+        out.append(rec)
+    return out
+
+
+_TISSUE_CACHE = {}
+
+
+def replay(ob, ins, run):
+    """a refuted obligation is replayed natively by the tissue scenario in the obligation's own contact-model configuration"""
+    import re
+    m = re.search(r'CONTACT_MODEL_INDEX=(\d)', ob.info.get('config') or '')
+    model = int(m.group(1)) if m else 1
+    if model not in _TISSUE_CACHE: _TISSUE_CACHE[model] = tissue_runs(model, TISSUE_POSITIONS)
+    res = _TISSUE_CACHE[model]
+    bad = [r for r in res if r[1] == 1]
+    if bad: return {'confirmed': True, 'exit': 1, 'args': list(bad[0][0]), 'defines': {'CONTACT_MODEL_INDEX': model}, 'output': bad[0][2][-2500:], 'driver': 'specs/C06.py:TISSUE_DRIVER'}
+    return {'confirmed': False, 'tried': [(r[0], r[1]) for r in res], 'output': res[-1][2][-400:] if res else '', 'driver': 'specs/C06.py:TISSUE_DRIVER'}
+
+
+def replay_recorded(data):
+    import native
+    nat = data.get('native') or {}
+    if 'defines' not in nat: return {'confirmed': False, 'output': 'no native scenario recorded for this obligation; re-run ./check'}
+    code, out = native.run_driver(TISSUE_DRIVER, nat.get('args') or ['0', '0', '0'], defines={'SIMUCELL3D_VERIF_' + k: v for k, v in nat['defines'].items()}, timeout=600)
+    return {'confirmed': code == 1, 'output': out}
+
+
+
 EXPLANATION = ("Chain of contracts for the shipped contact model (node-node coupling); each link is an obligation set on the real code, the composition "
                "is written here. D0 constructor: padding = max(cut-offs), voxel size = 3*l_min + 2*padding. D1 update_face_aabbs: box list starts "
                "empty; an arbitrary iteration appends exactly the padded extent [min - pad, max + pad] of the face's three nodes at position 6*i, "
